@@ -221,6 +221,20 @@ func depVerdict(w *World, r *Report, rule string) {
 			fmt.Println(i, p.BackPhi)
 		}
 	}
+	// one read of the dependency's status per iteration: two reads (e.g. one in each of two
+	// predicates) can see different values when the dependency changes state in between
+	for _, p := range res.Paths {
+		reads := 0
+		for _, e := range p.Effects {
+			if e.Kind == "call" && strings.HasSuffix(e.Target, ".ReadStatus") && e.Val == D {
+				reads++
+			}
+		}
+		if reads > 1 {
+			r.Viol(rule+".table", FuncName(cs)+": dependency verdict", w.Pos(cs.Pos()), fmt.Sprintf("the status of one dependency is read %d times in one iteration (path %s): the verdict combines two observations that need not agree — a dependent can be launched although the dependency just failed", reads, p.LitString()))
+			return
+		}
+	}
 	// the loop-carried flag: the header phi the function's result comes from (whatever its name)
 	flag := "ready"
 	allInstrs(cs, func(in ssa.Instruction) {
